@@ -159,8 +159,18 @@ def check_wrappers(ctx, cfg, rules):
                 pre = [c for c in copies if base_of(c[2][0]) == P5 and any(fn.dominates(c[4], b[4]) for b in backs)]
                 bad = [c for c in pre if not (c[2][1] == P4 or (isinstance(c[2][1], tuple) and c[2][1][:2] == ("slice", P4)))]
                 ctx.ob("aead-no-leak", key + ":pre", not bad, "before verification only ciphertext bytes are placed in the output buffer" if not bad else "non-ciphertext data copied to the output before verification: %s" % brief(bad[0][2]), where(fn), cfg)
-                # error mapping
-                ctx.ob("aead-error", key, decrypt_error_is_decrypt(ctx, cfg, fn), "a failed verification is reported as Error::Decrypt", where(fn), cfg) if rules.get("error") else None
+                # no other call may write the caller's output buffer
+                stray = out_writers(ctx, cfg, fn, 5, set(BACKEND_DEC) | {"copy_from_slice"})
+                ctx.ob("aead-no-leak", key + ":out-writers", not stray,
+                       "the output buffer is handed only to the AEAD open call and to copy_from_slice" if not stray
+                       else "the caller's output buffer is also passed mutably to %s (it may leave unauthenticated data there)" % ", ".join(stray), where(fn), cfg)
+                if rules.get("error"):
+                    okv, whyv = decrypt_error_is_decrypt(ctx, cfg, fn)
+                    ctx.ob("aead-error", key, okv, "every error the wrapper constructs is Error::Decrypt" if okv else whyv, where(fn), cfg)
+                    b0 = ok_without_success(ctx, cfg, fn, [b[1] for b in backs])
+                    ctx.ob("aead-error", key + ":ok-only-after-success", b0 is None,
+                           "Ok(..) is returned only on the success edge of the AEAD open call" if b0 is None
+                           else "Ok(..) can be returned without the AEAD open call having succeeded (bb%d)" % b0, where(fn), cfg)
     return n
 
 
@@ -196,18 +206,93 @@ def vec_copy_of(ctx, cfg, fn, localname, src):
 
 
 def decrypt_error_is_decrypt(ctx, cfg, fn):
-    """every map_err closure of the function returns Error::Decrypt"""
+    """every Error value constructed in the function or its closures is Error::Decrypt (and there is at least one)"""
+    from .common import ret_err_sites
     F = ctx.facts[cfg]
-    ok = False
-    for p, b in F.bodies.items():
-        if b.get("kind") == "Closure" and b.get("parent") == fn.path and "mir" in b:
-            g = F.fn(p)
-            if g.local_ty_s(0).endswith("error::Error"):
-                for blk in g.blocks:
-                    for s in blk["stmts"]:
-                        if s["k"] == "assign" and s["place"]["local"] == 0 and s["rv"]["k"] == "aggregate":
-                            if s["rv"].get("variant_name") == "Decrypt":
-                                ok = True
-                            else:
-                                return False
-    return ok
+    n = 0
+    for p, b in list(F.bodies.items()):
+        if not ("mir" in b and (p == fn.path or (b.get("kind") == "Closure" and b.get("parent") == fn.path))):
+            continue
+        g = F.fn(p)
+        for blk in g.blocks:
+            for st in blk["stmts"]:
+                if st["k"] == "assign" and st["rv"]["k"] == "aggregate" and (st["rv"].get("adt") or "").endswith("error::Error"):
+                    n += 1
+                    if st["rv"].get("variant_name") != "Decrypt":
+                        return False, "a failed verification is reported as Error::%s, not Error::Decrypt" % st["rv"].get("variant_name")
+    if n == 0:
+        return False, "no Error::Decrypt is constructed in the decrypt wrapper"
+    return True, ""
+
+
+def ok_without_success(ctx, cfg, fn, backend_names):
+    """block of an `_0 = Ok(..)` reachable on a path that never takes a success edge of the backend call, else None"""
+    from .common import ret_ok_sites
+    G = ctx.guards(cfg, fn)
+    shorts = [b.split("::")[-1] for b in backend_names]
+
+    def about_backend(e):
+        if any(mentions_str(e, x) for x in shorts):
+            return True
+        # a borrowed local holding the Result of the backend call
+        found = []
+
+        def rec(d):
+            if isinstance(d, tuple):
+                if len(d) == 2 and d[0] == "loc" and isinstance(d[1], int):
+                    found.append(d[1])
+                for x in d:
+                    rec(x)
+            elif isinstance(d, frozenset):
+                for x in d:
+                    rec(x)
+        rec(e)
+        for l in found:
+            defs = fn.defs().get(l, [])
+            if len(defs) == 1 and defs[0][1] == "term" and any((defs[0][2]["callee"].get("def") or "").endswith(x) for x in shorts):
+                return True
+        return False
+
+    def success(f):
+        if f[0] == "ok":
+            return about_backend(f[1])
+        if f[0] == "bool" and isinstance(f[1], tuple) and f[1] and f[1][0] == "call" and about_backend(f[1]):
+            nm = (f[1][1] or "")
+            if nm.endswith("::is_err"):
+                return f[2] is False
+            if nm.endswith("::is_ok"):
+                return f[2] is True
+        return False
+
+    oks = {b for b, st in ret_ok_sites(fn)}
+    seen = set()
+    stack = [0]
+    while stack:
+        b = stack.pop()
+        if b in seen:
+            continue
+        seen.add(b)
+        if b in oks:
+            return b
+        for x in fn.succs(b):
+            if any(success(f) for f in G.edge_facts.get((b, x), ())):
+                continue
+            stack.append(x)
+    return None
+
+
+def out_writers(ctx, cfg, fn, out_ext, allowed):
+    """names of calls (other than re-slicing and `allowed`) that receive a &mut possibly aliasing external parameter out_ext"""
+    from .tokens import norm_callee
+    E = ctx.eff(cfg)
+    pts = E.pts[fn.path]
+    bad = []
+    for bi, t in fn.calls():
+        for a in t["args"]:
+            ty = E._op_ty(fn, a)
+            if ty is not None and ty["k"] == "refmut" and any(r == ("ext", out_ext) for r, p in (pts._val_pts(a) or set())):
+                nc = norm_callee(t["callee"].get("def") or "")
+                if nc in ("IndexMut::index_mut", "Index::index", "slice::len", "DerefMut::deref_mut") or nc in allowed:
+                    continue
+                bad.append(nc or "?")
+    return sorted(set(bad))
